@@ -18,7 +18,9 @@ CONSTANTS TS,        \* set of TT-tensor structures
           MS,        \* set of TT-matrix structures
           SC,        \* set of scalars [kind, re, im]
           OPS,       \* set of enabled operation names
-          BATCH      \* set of batch shapes for A @ dense
+          BATCH,     \* set of batch shapes for A @ dense
+          ITEMS(_, _), \* ITEMS(n, d): index items tried on a mode of size n of an order-d object
+          WIDTHS     \* set of padding widths <<before, after>> tried per mode
 
 VARIABLES case, res
 vars == <<case, res>>
@@ -131,7 +133,7 @@ KronOp(x) ==
     /\ \E y0 \in TS \cup MS :
         /\ x.k = y0.k /\ x.cx = y0.cx
         /\ Len(x.I) + Len(y0.I) <= 4
-        /\ Prod(x.I) * Prod(x.J) * Prod(y0.I) * Prod(y0.J) <= 144
+        /\ Prod(x.I) * Prod(x.J) * Prod(y0.I) * Prod(y0.J) <= (IF x.k = "tt" THEN 144 ELSE 36)
         /\ LET y == Second(y0)  X == Mk(x)  Y == Mk(y) IN
            /\ case' = [op |-> "kron", x |-> x, y |-> y]
            /\ res' = ObjRes(TKron(X, Y),
@@ -181,6 +183,163 @@ MatDense(A) ==
         /\ case' = [op |-> "matdense", x |-> A, bsh |-> bsh, f |-> A.f + 1]
         /\ res' = DenseRes(DMatDense(Full(TA), Len(A.I), X), "must")
 
+\* ------------------------------------------------ factories (C03 statement)
+VecFill(n, f, cx) == DenseFill(<<n>>, f, cx)
+Factory(op, x) ==
+    /\ op \in OPS
+    /\ LET d == Len(x.I)  one == [p \in 1..(d + 1) |-> 1] IN
+       /\ case' = [op |-> op, x |-> x]
+       /\ CASE op = "ones"  -> res' = ValRes(x.k, IF x.k = "tt" THEN <<>> ELSE x.I, IF x.k = "tt" THEN x.I ELSE x.J,
+                                             DConst(IF x.k = "tt" THEN x.I ELSE x.I \o x.J, GOne), "must") @@ [R |-> one]
+            [] op = "zeros" -> res' = ValRes(x.k, IF x.k = "tt" THEN <<>> ELSE x.I, IF x.k = "tt" THEN x.I ELSE x.J,
+                                             DConst(IF x.k = "tt" THEN x.I ELSE x.I \o x.J, GZero), "must") @@ [R |-> one]
+            [] op = "eye"   -> x.k = "tt" /\ res' = ValRes("ttm", x.I, x.I,
+                                  DenseOf(x.I \o x.I, LAMBDA ix : IF SubSeq(ix, 1, d) = SubSeq(ix, d + 1, 2*d) THEN GOne ELSE GZero),
+                                  "must") @@ [R |-> one]
+            [] op = "rank1" -> x.k = "tt" /\ res' = ValRes("tt", <<>>, x.I,
+                                  DenseOf(x.I, LAMBDA ix : FoldLeft(GMul, GOne, [p \in 1..d |-> At(VecFill(x.I[p], x.f + p, x.cx), <<ix[p]>>)])),
+                                  "must") @@ [R |-> one]
+Meshgrid(x) ==
+    /\ "meshgrid" \in OPS /\ x.k = "tt"
+    /\ \E q \in 1..Len(x.I) :
+        /\ case' = [op |-> "meshgrid", x |-> x, q |-> q]
+        /\ res' = ValRes("tt", <<>>, x.I, DenseOf(x.I, LAMBDA ix : At(VecFill(x.I[q], x.f + q, x.cx), <<ix[q]>>)), "must")
+                  @@ [R |-> [p \in 1..(Len(x.I) + 1) |-> 1]]
+
+\* ---------------------------------------------------------------------- C07
+SubsetsSeq(d) == {SetToSortSeq(S, <) : S \in (SUBSET (1..d)) \ {{}}}
+Reductions(op, x) ==
+    /\ op \in OPS
+    /\ LET X == Mk(x)  DX == Full(X)  d == Len(x.I) IN
+       CASE op \in {"norm2", "norm"} ->     \* "norm": the harness compares with the square root of this integer
+              /\ case' = [op |-> op, x |-> x]
+              /\ res' = NumRes(<<DNorm2(DX), 0>>, "must")
+         [] op = "sum_all" ->
+              /\ case' = [op |-> op, x |-> x]
+              /\ res' = NumRes(DSumAll(DX), "must")
+         [] op = "sum_axes" ->
+              \E axes \in SubsetsSeq(d) :
+                 /\ case' = [op |-> op, x |-> x, axes |-> axes]
+                 /\ res' = IF Len(axes) = d THEN NumRes(DSumAll(DX), "must")
+                           ELSE LET rest == Complement(d, axes) IN
+                                IF x.k = "tt" THEN ValRes("tt", <<>>, SelectSeq2(x.I, rest), DSumAxes(DX, axes), "must")
+                                ELSE ValRes("ttm", SelectSeq2(x.I, rest), SelectSeq2(x.J, rest), DSumAxesM(DX, d, axes), "must")
+Dot(x) ==
+    /\ "dot" \in OPS /\ x.k = "tt"
+    /\ \E y0 \in TS :
+        /\ y0.cx = x.cx /\ y0.I = x.I
+        /\ LET y == Second(y0) IN
+           /\ case' = [op |-> "dot", x |-> x, y |-> y]
+           /\ res' = NumRes(DDot(Full(Mk(x)), Full(Mk(y))), "must")
+DotAxes(x) ==
+    /\ "dot_axes" \in OPS /\ x.k = "tt"
+    /\ \E y0 \in TS, axes \in SubsetsSeq(Len(x.I)) :
+        /\ y0.cx = x.cx /\ y0.I = SelectSeq2(x.I, axes)
+        /\ LET y == Second(y0)  DX == Full(Mk(x))  DY == Full(Mk(y))  d == Len(x.I) IN
+           /\ case' = [op |-> "dot_axes", x |-> x, y |-> y, axes |-> axes]
+           /\ res' = IF Len(axes) = d THEN NumRes(DDot(DX, DY), "must")
+                     ELSE ValRes("tt", <<>>, SelectSeq2(x.I, Complement(d, axes)), DDotAxes(DX, DY, axes), "must")
+Bilinear(A) ==
+    /\ "bilinear" \in OPS /\ A.k = "ttm"
+    /\ \E x0 \in TS, y0 \in TS :
+        /\ x0.cx = A.cx /\ y0.cx = A.cx /\ x0.I = A.I /\ y0.I = A.J
+        /\ LET x == Second(x0)  y == Second(Second(y0)) IN
+           /\ case' = [op |-> "bilinear", x |-> A, y |-> x, z |-> y]
+           /\ res' = NumRes(DBilinear(Full(Mk(x)), Full(Mk(A)), Len(A.I), Full(Mk(y))), "must")
+
+\* ---------------------------------------------------------------------- C08
+NoneItem == [t |-> "n"]
+EllItem == [t |-> "e"]
+RECURSIVE BaseExprs(_, _, _)
+BaseExprs(sh, p, d) ==        \* all item sequences for modes p..Len(sh)
+    IF p > Len(sh) THEN {<<>>}
+    ELSE {<<it>> \o rest : it \in ITEMS(sh[p], d), rest \in BaseExprs(sh, p + 1, d)}
+InsAfter(e, q, it) == SubSeq(e, 1, q) \o <<it>> \o SubSeq(e, q + 1, Len(e))
+IndexExprs(sh) ==
+    LET d == Len(sh)  B == BaseExprs(sh, 1, d) IN
+    B \cup {InsAfter(e, q, NoneItem) : e \in B, q \in 0..d}
+      \cup UNION {{<<EllItem>> \o SubSeq(e, k + 1, d), SubSeq(e, 1, d - k) \o <<EllItem>>,
+                   <<EllItem>> \o SubSeq(e, k + 1, d) \o <<NoneItem>>, <<NoneItem>> \o SubSeq(e, 1, d - k) \o <<EllItem>>} : e \in B, k \in 0..d}
+      \cup {SubSeq(e, 1, k) : e \in B, k \in 1..(d - 1)}          \* short tuples (trailing modes implied)
+HasEll(e) == \E p \in 1..Len(e) : e[p].t = "e"
+HasNone(e) == \E p \in 1..Len(e) : e[p].t = "n"
+IndexT(x) ==
+    /\ "index" \in OPS /\ x.k = "tt"
+    /\ \E e \in IndexExprs(x.I) :
+        /\ ValidIndex(e, x.I)
+        /\ LET DX == Full(Mk(x))  D == DIndex(DX, e)
+               st == IF NConsumers(e) = Len(x.I) \/ HasEll(e) THEN "must" ELSE "may" IN
+           /\ case' = [op |-> "index", x |-> x, e |-> e]
+           /\ res' = IF AllInts(e, Len(x.I)) THEN NumRes(D.v[1], st) ELSE ValRes("tt", <<>>, D.sh, D, st)
+\* operators: row items then column items, pairwise of the same kind
+PairExprs(M, N) ==
+    LET d == Len(M) IN
+    {re \o ce : re \in BaseExprs(M, 1, d), ce \in BaseExprs(N, 1, d)}
+IndexM(A) ==
+    /\ "index_m" \in OPS /\ A.k = "ttm"
+    /\ \E e \in PairExprs(A.I, A.J) :
+        LET d == Len(A.I) IN
+        /\ \A p \in 1..d : e[p].t = e[d + p].t
+        /\ ValidIndex(e, A.I \o A.J)
+        /\ LET D == DIndex(Full(Mk(A)), e)
+               keep == {p \in 1..d : e[p].t = "s"}
+               ks == SetToSortSeq(keep, <) IN
+           /\ case' = [op |-> "index_m", x |-> A, e |-> e]
+           /\ res' = IF keep = {} THEN NumRes(D.v[1], "must")
+                     ELSE ValRes("ttm", SubSeq(D.sh, 1, Len(ks)), SubSeq(D.sh, Len(ks) + 1, 2*Len(ks)), D, "must")
+MaskRows(sh, K, f) == [k \in 1..K |-> [p \in 1..Len(sh) |-> ((k*7 + p*3 + f + k*p) % sh[p]) + 1]]   \* 1-based
+ApplyMask(x) ==
+    /\ "apply_mask" \in OPS /\ x.k = "tt"
+    /\ \E K \in {1, 2, 5} :
+        LET rows == MaskRows(x.I, K, x.f)  DX == Full(Mk(x)) IN
+        /\ case' = [op |-> "apply_mask", x |-> x, rows |-> rows]
+        /\ res' = DenseRes([sh |-> <<K>>, v |-> [k \in 1..K |-> At(DX, rows[k])]], "must")
+
+\* ---------------------------------------------------------------------- C09
+Cat(x) ==
+    /\ "cat" \in OPS /\ x.k = "tt"
+    /\ \E y0 \in TS, ax \in 1..Len(x.I) :
+        /\ y0.cx = x.cx /\ Len(y0.I) = Len(x.I)
+        /\ \A p \in 1..Len(x.I) : p # ax => y0.I[p] = x.I[p]
+        /\ LET y == Second(y0)  X == Mk(x)  Y == Mk(y) IN
+           /\ case' = [op |-> "cat", x |-> x, y |-> y, ax |-> ax]
+           /\ res' = ObjRes(TCat2(X, Y, ax), DCat2(Full(X), Full(Y), ax), RanksAdd(x.R, y.R), "must")
+Cat3(x) ==      \* three operands: x, a second one, and a third of x's own structure with another fill
+    /\ "cat3" \in OPS /\ x.k = "tt"
+    /\ \E y0 \in TS, ax \in 1..Len(x.I) :
+        /\ y0.cx = x.cx /\ Len(y0.I) = Len(x.I)
+        /\ \A p \in 1..Len(x.I) : p # ax => y0.I[p] = x.I[p]
+        /\ LET y == Second(y0)  z == Second(Second(x))  X == Mk(x)  Y == Mk(y)  Z == Mk(z)
+               XY == TCat2(X, Y, ax) IN
+           /\ case' = [op |-> "cat3", x |-> x, y |-> y, z |-> z, ax |-> ax]
+           /\ res' = ObjRes(TCat2(XY, Z, ax), DCat2(DCat2(Full(X), Full(Y), ax), Full(Z), ax),
+                            RanksAdd(RanksAdd(x.R, y.R), z.R), "must")
+WidthSeqs(k) == SeqsOf(WIDTHS, k)
+PadT(x) ==
+    /\ "pad" \in OPS /\ x.k = "tt"
+    /\ \E k \in 1..Len(x.I) : \E w \in WidthSeqs(k), val \in {0, 3} :
+        LET DX == Full(Mk(x)) IN
+        /\ case' = [op |-> "pad", x |-> x, w |-> w, val |-> val]
+        /\ res' = ValRes("tt", <<>>, DPadT(DX, w, <<val, 0>>).sh, DPadT(DX, w, <<val, 0>>), "must")
+                  @@ [tol |-> IF val = 0 THEN "exact" ELSE "roundoff"]
+PadM(A) ==
+    /\ "pad_m" \in OPS /\ A.k = "ttm"
+    /\ \E w \in WidthSeqs(Len(A.I)), val \in {0, 3} :
+        LET d == Len(A.I)  D == DPadM(Full(Mk(A)), d, w, <<val, 0>>) IN
+        /\ case' = [op |-> "pad_m", x |-> A, w |-> w, val |-> val]
+        /\ res' = ValRes("ttm", SubSeq(D.sh, 1, d), SubSeq(D.sh, d + 1, 2*d), D, "must") @@ [tol |-> "exact"]
+\* mode products: factor matrix for mode p has shape <<(N[p] % 3) + 1, N[p]>> and the canonical dense fill
+MatFor(x, p) == DenseFill(<<(x.I[p] % 3) + 1, x.I[p]>>, x.f + p + 1, x.cx)
+RECURSIVE MProdSeq(_, _, _, _)
+MProdSeq(D, x, modes, q) == IF q > Len(modes) THEN D ELSE MProdSeq(DMProd1(D, MatFor(x, modes[q]), modes[q]), x, modes, q + 1)
+MProd(x) ==
+    /\ "mprod" \in OPS /\ x.k = "tt"
+    /\ \E modes \in SubsetsSeq(Len(x.I)), aslist \in BOOLEAN :
+        /\ (~aslist => Len(modes) = 1)
+        /\ LET D == MProdSeq(Full(Mk(x)), x, modes, 1) IN
+           /\ case' = [op |-> "mprod", x |-> x, modes |-> modes, aslist |-> aslist]
+           /\ res' = ValRes("tt", <<>>, D.sh, D, "must") @@ [R |-> x.R]
+
 AlgNext(x) ==
     \/ \E op \in {"add", "sub", "mul"} : BinTT(op, x) \/ BinMM(op, x)
     \/ \E op \in {"add_rev", "sub_rev", "mul_rev"} : BinTTRev(op, x)
@@ -189,6 +348,12 @@ AlgNext(x) ==
     \/ \E op \in {"add_s", "radd_s", "sub_s", "rsub_s", "mul_s", "rmul_s", "div_s"} : ScalarOp(op, x)
     \/ KronOp(x)
     \/ MatVec(x) \/ VecMat(x) \/ MatMat(x) \/ MatDense(x)
+    \/ \E op \in {"ones", "zeros", "eye", "rank1"} : Factory(op, x)
+    \/ Meshgrid(x)
+    \/ \E op \in {"norm2", "norm", "sum_all", "sum_axes"} : Reductions(op, x)
+    \/ Dot(x) \/ DotAxes(x) \/ Bilinear(x)
+    \/ IndexT(x) \/ IndexM(x) \/ ApplyMask(x)
+    \/ Cat(x) \/ Cat3(x) \/ PadT(x) \/ PadM(x) \/ MProd(x)
 
 Next == Fresh /\ AlgNext(case.x)
 
